@@ -158,6 +158,49 @@ func c19Check(c c19Case) error {
 			return fmt.Errorf("dry-run emitter: GetLabel(%q) = ($%06x,%v), an emitter with a buffer has ($%06x,%v)", n, v1, ok1, v2, ok2)
 		}
 	}
+	// "measure code size before allocating": the tail of the history is first run on a dry-run clone of the emitter that
+	// holds the head, the clone is discarded, and the same tail is then emitted for real on that emitter - which must accept
+	// every call a directly fed emitter accepts and end up identical to it
+	k := len(c.Ops) / 2
+	if dryClone {
+		k = c.CloneFrom
+	}
+	direct := asm.NewEmitter(make([]byte, total), false)
+	par := asm.NewEmitter(make([]byte, total), false)
+	for _, o := range c.Ops[:k] {
+		asmcat.ApplyReal(direct, o)
+		asmcat.ApplyReal(par, o)
+	}
+	for round := 0; round < 2; round++ { // measured twice: the second measurement must not see traces of the first
+		meas := par.Clone(nil)
+		for _, o := range c.Ops[k:] {
+			asmcat.ApplyReal(meas, o)
+		}
+		if meas.PC() != real.PC() {
+			return fmt.Errorf("measuring pass %d on a dry-run clone made after %d calls ends at PC $%06x, the program ends at $%06x", round+1, k, meas.PC(), real.PC())
+		}
+	}
+	for i, o := range c.Ops[k:] {
+		r1, p1 := asmcat.ApplyReal(direct, o)
+		r2, p2 := asmcat.ApplyReal(par, o)
+		if (p1 == nil) != (p2 == nil) || r1 != r2 {
+			return fmt.Errorf("after two measuring passes on discarded dry-run clones: call %d %v returned ($%06x, panic %v) on the measured emitter and ($%06x, panic %v) on one that was never measured", k+i, o, r2, p2, r1, p1)
+		}
+	}
+	if !bytes.Equal(direct.Bytes(), par.Bytes()) || direct.PC() != par.PC() || direct.Flags() != par.Flags() {
+		return fmt.Errorf("after two measuring passes on discarded dry-run clones the emitter differs from one that was never measured (PC $%06x/$%06x, first differing byte %d)", par.PC(), direct.PC(), firstDiff(direct.Bytes(), par.Bytes()))
+	}
+	for _, n := range allLabelNames {
+		v1, ok1 := par.GetLabel(n)
+		v2, ok2 := direct.GetLabel(n)
+		if v1 != v2 || ok1 != ok2 {
+			return fmt.Errorf("after measuring passes on discarded dry-run clones: GetLabel(%q) = ($%06x,%v), never measured ($%06x,%v)", n, v1, ok1, v2, ok2)
+		}
+	}
+	e1, e2 := direct.Finalize(), par.Finalize()
+	if (e1 == nil) != (e2 == nil) || e1 == nil && !bytes.Equal(direct.Bytes(), par.Bytes()) { // (a failing Finalize patches whichever references it came to first)
+		return fmt.Errorf("after measuring passes on discarded dry-run clones Finalize returns %v (never measured: %v), first differing byte %d", e2, e1, firstDiff(direct.Bytes(), par.Bytes()))
+	}
 	return nil
 }
 
